@@ -70,6 +70,40 @@ def stale_rst_signature(t, idx):
     return None
 
 
+def fresh_oracle(t):
+    """implementation-only form of 'Observe value strictly greater (24-bit serial numbers) than in
+    any earlier notification': every notification to (resource, observer, token) against the
+    previous value-carrying message to it (a registration response may be repeated once: the
+    registration can fall between a change and the I/O step).  -> None or a description"""
+    last = {}                       # (r, c, tok) -> (value, was_registration_response)
+    for g in t.groups:
+        for o in g[1]:
+            if o[0] == "Q":
+                r, c, tok, v = o[1:].split(":")
+                if v != "-":
+                    last[(r, c, tok)] = (int(v), True)
+                else:
+                    last.pop((r, c, tok), None)
+            elif o[0] == "N":
+                f = o[1:].split(":")
+                key, v = (f[1], f[2], f[3]), int(f[4])
+                if key in last:
+                    pv, weak = last[key]
+                    d = (v - pv) % (1 << 24)
+                    if not ((0 if weak else 1) <= d < (1 << 23)):
+                        return ("notification %s: Observe %d after %d for the same observer is not fresher"
+                                % (o, v, pv))
+                last[key] = (v, False)
+            elif o[0] in "EG":
+                f = o[1:].split(":")
+                last.pop(tuple(f[1:4]) if o[0] == "E" else tuple(f[0:3]), None)
+        if g[0][0] == "D":
+            r = g[0].split(":")[1]
+            for k in [k for k in last if k[0] == r]:
+                del last[k]
+    return None
+
+
 def judge(case, trace, mo, acc_l, acc_s, consts_expected=None):
     """-> Verdict for one history"""
     v = Verdict()
@@ -136,10 +170,20 @@ def judge(case, trace, mo, acc_l, acc_s, consts_expected=None):
         _, idx, code = acc_l.split()
         idx, code = int(idx), int(code)
         g = t.groups[idx] if idx < len(t.groups) else ["?", [], "?"]
-        v.kind = "acceptor"
         v.what = ("acceptor rejects the implementation's history at op %d (%s, harness op %s): %s"
                   % (idx, g[0], g[2], REASONS.get(code, "reason %d" % code)))
         v.detail = "outputs of that op: %s" % " ".join(g[1])
+        if code in (3, 8):
+            # the acceptor ties the Observe value to libcoap's counter (one step per change); the
+            # property only asks for freshness: decide that on the implementation's values alone
+            fo = fresh_oracle(t)
+            if fo is None:
+                v.kind = "tie"
+                v.what = ("Observe values differ from the model's counter scheme but are fresh (%s)"
+                          % REASONS.get(code))
+                return v
+            v.detail += "\nfreshness oracle: " + fo
+        v.kind = "acceptor"
         return v
     if not acc_l.startswith("ACCEPT"):
         v.kind, v.what = "acceptor", "acceptor failed: " + acc_l[:200]
